@@ -26,19 +26,78 @@ def _work(seeds):
     return out
 
 
+def _replay_chunk(states):
+    import warnings
+    from ..core import use_repo
+    use_repo()
+    from ..drivers import chained
+    out = []
+    with warnings.catch_warnings():
+        warnings.simplefilter('ignore')
+        for st in states:
+            try:
+                fails = chained.replay_state(st)
+            except Exception:
+                import traceback
+                return [('harness_error', traceback.format_exc()[-1500:], st)]
+            out.extend((cl, why, st) for cl, why in fails)
+    return out
+
+
+def replay_graph(ctx: Ctx, cfg: str):
+    """spec -> code: every finished state of Chained.tla (hierarchy, counts, missing rows, threshold, final
+    leaders) is rebuilt as a real sample and fitted; the real leaders and outputs must be the specification's."""
+    import json
+    import os
+    import shutil
+    from .. import tlaval
+    scratch = tlc.scratch_dir()
+    try:
+        r = tlc.run_mc('MC_Chained', cfg, dump=os.path.join(scratch, 'g'), scratch=scratch, timeout=3000, coverage=(ctx.tier == 'quick'))
+        ctx.add_design(r)
+        if not r.ok:
+            raise tlc.MachineryError(f'design counterexample in Chained.tla: {r.violated}\n{r.counterexample[-1:]}')
+        seen = {}
+        for st in tlaval.parse_dump(os.path.join(scratch, 'g.dump')):
+            if st['level'] > max(st['tree']['lvl']):
+                seen[json.dumps(st, sort_keys=True)] = st
+    finally:
+        shutil.rmtree(scratch, ignore_errors=True)
+    fin = list(seen.values())
+    if not fin:
+        raise tlc.MachineryError('no finished state in the dump of Chained.tla')
+    with ProcessPoolExecutor(max_workers=16) as ex:
+        for part in ex.map(_replay_chunk, [fin[i::64] for i in range(64)]):
+            for cl, why, st in part:
+                if cl == 'harness_error':
+                    raise tlc.MachineryError(f'chained replayer failed on {st}: {why}')
+                ctx.violations.append(Violation(
+                    clause=cl, what=f'state of Chained.tla tree={st["tree"]} cnt={st["cnt"]} N={st["n"]} min_freq={st["mf"]}: {why}',
+                    sig={'driver': 'chained.replay_state', 'clause': cl, 'policy': 'raise', 'nunknown': 0},
+                    replay={'driver': 'chained.replay_state', 'args': {'state': st}}))
+    ctx.traces += len(fin)
+    ctx.evaluations += len(fin)
+    for st in fin:
+        if any(l != i + 1 for i, l in enumerate(st['leader'])):
+            ctx.nontrivial.add(jhash(['replay', st['tree']['par'], st['cnt'], st['mf'], st['n']]))
+    ctx.notes['finished_states_replayed'] = len(fin)
+    ctx.add_sample({'kind': 'spec->code state', 'state': fin[len(fin) // 2]})
+
+
 def run(ctx: Ctx):
     ctx.rule = ('Each case is one real ChainedDiscretizer fit + transform on a seeded random hierarchy (1-3 levels, uneven fan-out, groups left out of '
                 'the next level, never-observed members, intermediate names observed directly, numeric leaves given as int / float, missing rows, 0-2 '
                 'unknown values) x min_freq x unknown_handling; TLC (ChainedTrace.tla) checks on the observed values_orders: every hierarchy value kept, '
                 'leader is the value itself or an ancestor, first-level value own modality iff frequent, rare non-root groups merged further up, unknown '
-                'values refused / merged with missing values, transform outputs the leader; conformance: leaders = FinalLeader of ChainedOps.tla. '
+                'values refused / merged with missing values, transform outputs the leader, no merge beyond the first frequent ancestor; conformance: leaders = FinalLeader of ChainedOps.tla. '
+                'spec -> code: every finished state of the TLC dump of Chained.tla is rebuilt as a real hierarchy + sample, fitted, and the real leaders / outputs compared. '
                 'Non-trivial: a fit with at least one merge; distinct by (hierarchy, counts, threshold).')
     ctx.assumptions = ['frequencies compared exactly (n<=60)', 'the first level of chained_orders defines the known values']
     cfg = 'MC_Chained_quick.cfg' if ctx.tier == 'quick' else 'MC_Chained.cfg'
-    r = tlc.run_mc('MC_Chained', cfg, timeout=3000, coverage=(ctx.tier == 'quick'))
-    ctx.add_design(r)
-    if not r.ok:
-        raise tlc.MachineryError(f'design counterexample in Chained.tla: {r.violated}\n{r.counterexample[-1:]}')
+    replay_graph(ctx, cfg)
+    ctx.exhaustive = True
+    ctx.exhaustive_domain = ('every finished state of Chained.tla over the 6 hierarchies of MC_Chained.tla x counts 0..%d per node x {0, 2} missing rows x 3 '
+                             'thresholds, replayed into the real class' % (2 if ctx.tier == 'quick' else 3))
     ctx.notes['design_invariants'] = ['Inv_C18_Along', 'Inv_C18_RowsKept', 'Inv_C18_Final', 'Termination']
     n = 1500 if ctx.tier == 'quick' else 15000
     base = ctx.seed * 1_000_003
@@ -82,6 +141,14 @@ def replay(ctx: Ctx, rep: dict):
     from ..core import use_repo
     use_repo()
     from ..drivers import chained
+    if rep.get('driver') == 'chained.replay_state':
+        st = rep['args']['state']
+        for cl, why in chained.replay_state(st):
+            ctx.violations.append(Violation(clause=cl, what=f'replayed state still fails: {why}',
+                                            sig={'driver': 'chained.replay_state', 'clause': cl, 'policy': 'raise', 'nunknown': 0}, replay=rep))
+        ctx.traces += 1
+        ctx.evaluations += 1
+        return
     with contextlib.redirect_stdout(io.StringIO()):
         c = chained.fit_case(rep['args']['spec'], 'replay')
     if c.get('skip'):
